@@ -42,6 +42,15 @@ Theorem action_registry_linearizable : forall threads sched,
 Proof. intros. apply atomic_lin. Qed.
 Print Assumptions action_registry_linearizable.
 
+(* provider level (OpenStore / SetStoreConfig / GetStoreConfig / GetOpenStores / Close / Store.Close and operations through
+   the handles), w.r.t. C11's provider-level CONTRACT machine: concurrent OpenStore calls of one name yield handles onto
+   ONE store (a write through one is read through the other), for any goroutines and schedule — when every provider
+   operation is one region of the provider mutex (lock_table_ok, check_then_act_regions_ok) *)
+Theorem provider_linearizable : forall persist threads sched,
+  lin_strong _ _ _ (pspec_step persist) [] (tr (exec (atomic_prog (pspec_step persist)) (start [] threads) sched)).
+Proof. intros. apply atomic_lin. Qed.
+Print Assumptions provider_linearizable.
+
 (* the Message registry: every delivery sees the subscribers of one moment (the list it iterates is the registry's
    content at its linearization point): no subscriber is skipped or served twice because of a concurrent Unregister *)
 Theorem message_registry_linearizable : forall threads sched,
@@ -106,6 +115,12 @@ Print Assumptions lock_table_ok.
 Theorem atomic_regions_ok : atomic_ok = true.
 Proof. vm_compute. reflexivity. Qed.
 Print Assumptions atomic_regions_ok.
+
+(* check-then-act: an entry point that reads and writes one shared field (look a name up in the open-store map and
+   insert when absent; test the registered channel and set it; ...) does both inside ONE acquisition of the mutex *)
+Theorem check_then_act_regions_ok : rmw_ok = true.
+Proof. vm_compute. reflexivity. Qed.
+Print Assumptions check_then_act_regions_ok.
 
 Theorem lock_order_acyclic : lock_order_ok = true.
 Proof. vm_compute. reflexivity. Qed.
